@@ -113,7 +113,8 @@ impl DataTable {
                 }
                 fields.push(format!("\"{}\": {}", name, json_text(v)));
             }
-            format!("{{{}}}", fields.join(", "))
+            // (trailing blanks are part of the line - `input` - and of no column)
+            format!("{{{}}}{}", fields.join(", "), if t.chance(1, 12) { *t.pick(&[" ", "  ", "\t"]) } else { "" })
         } else {
             let mut out = String::new();
             for ((name, ty), v) in self.cols.iter().zip(values.iter()) {
@@ -126,6 +127,9 @@ impl DataTable {
                     (_, V::Text(s)) => out.push_str(&format!("{}={};", name, s)),
                     _ => {}
                 }
+            }
+            if t.chance(1, 12) {
+                out.push_str(*t.pick(&[" ", "  ", "\t"]));
             }
             out
         }
